@@ -37,6 +37,15 @@ CLAIMED = {
     note="Trusts the dump code in mbt/c19.py (self-test corrupts three recorded fields and requires three different invariants to fail); atomic weights only range-checked.",
     technique="TLC evaluation of first-order invariants over the recorded registry (trace = full dump of the real module)",
     design="4.19"),
+ "C07": dict(
+    text="Provider.tla is the provider's decision table: outcome as a function of accessor (13 rate accessors), species kind, stored/missing data, wavelength "
+         "availability, the three flags, argument class (every grid point, inside, non-positive per axis, below/above per axis) and axis shape; TLC enumerates all 10 304 rows, "
+         "checks totality and uniformity invariants, and every row is executed on a real OpenADAS object over a repository populated through the C06-checked API "
+         "(exception classes exact, grid values = stored table x CODATA unit conversion to 1e-9, exact zeros, finite non-negative, null rates).",
+    note="3-point axes (the 2-D cubic interpolators reject single-point axes; single-point only for beam classes); interpolation quality between nodes not specified beyond finite/non-negative; "
+         "photon coefficient with missing wavelength while null rates are requested is recorded, not asserted.",
+    technique="TLA+ decision table enumerated by TLC, one implementation test per row",
+    design="4.7"),
 }
 
 NOT_YET = {}
